@@ -118,9 +118,23 @@ Print Assumptions C12_close_never_loses_a_subscriber.
 
 (* The pinned code took the snapshot and cleared the map in TWO sections (defect D23, repaired): the subscriber registering in
    between was in neither - the interleaving found on the real crate by the check, replayed on the model. *)
+(* ... and an item pushed once both are done reaches it exactly when it was not handed the terminal: the terminal or the item. *)
+Theorem C12_close_then_push_terminal_xor_item :
+  forall acts, let c := clrun acts (clinit true) in
+  cl_joined c = true -> cl_done c = true ->
+  let c' := clstep c ClPush in
+  (cl_notified c' = true /\ cl_got c' = cl_got c) \/ (cl_notified c' = false /\ cl_got c' = true).
+Proof. exact close_then_push_terminal_xor_item. Qed.
+Check C12_close_then_push_terminal_xor_item :
+  forall acts, let c := clrun acts (clinit true) in
+  cl_joined c = true -> cl_done c = true ->
+  let c' := clstep c ClPush in
+  (cl_notified c' = true /\ cl_got c' = cl_got c) \/ (cl_notified c' = false /\ cl_got c' = true).
+Print Assumptions C12_close_then_push_terminal_xor_item.
+
 Example C12_known_D23_witness :
-  let c := clrun [ClSnap; ClJoin; ClClear; ClNotify] (clinit false) in
-  cl_joined c = true /\ cl_done c = true /\ cl_notified c = false /\ cl_inmap c = false.
+  let c := clrun [ClSnap; ClJoin; ClClear; ClNotify; ClPush] (clinit false) in
+  cl_joined c = true /\ cl_done c = true /\ cl_notified c = false /\ cl_inmap c = false /\ cl_got c = false.
 Proof. exact two_section_close_loses_a_subscriber. Qed.
 Example C12_close_example :
   let c := clrun [ClJoin; ClSnap; ClNotify] (clinit true) in cl_joined c = true /\ cl_done c = true /\ cl_notified c = true.
